@@ -62,8 +62,12 @@ def run_sigint(rng):
             env['VERIF_PAGER_SIGINT_PARENT'] = '1'
         e = runner.base_env(env, path_prefix=BIN)
         with open(log + '.out', 'wb') as fo, open(log + '.err', 'wb') as fe:
-            p = subprocess.Popen([runner.binary()] + args, stdin=subprocess.PIPE if what == 'stdin' else subprocess.DEVNULL, stdout=fo, stderr=fe, env=e,
-                                 cwd=os.path.join(w, 'cwd'))
+            # (started below a shell that reads like a git command delta has no description for: whatever else runs on the
+            # machine, the calling process is "none" - see runner.run_delta)
+            import shlex
+            script = ' '.join(shlex.quote(a) for a in [runner.binary()] + args) + '; rc=$?; exit $rc'
+            p = subprocess.Popen([runner.NEUTRAL_PARENT[0], '-c', script] + list(runner.NEUTRAL_PARENT[1:]), executable='/bin/sh',
+                                 stdin=subprocess.PIPE if what == 'stdin' else subprocess.DEVNULL, stdout=fo, stderr=fe, env=e, cwd=os.path.join(w, 'cwd'))
             try:
                 if what == 'stdin':
                     p.stdin.write(data)
@@ -308,6 +312,13 @@ def run_pager(rng):
         if k in src:
             env[k] = src[k]
     paging = rng.choice(['always', 'always', 'auto', 'never'])
+    nohist = rng.random() < 0.2
+    if nohist:
+        # --navigate keeps a private history file for less under $XDG_DATA_HOME: when that cannot be written (a read-only or
+        # missing home) the pager is started all the same
+        env['XDG_DATA_HOME'] = runner.write_file('c18_not_a_directory', 'x') + '/below'
+        if '--navigate' not in args:
+            args = args + ['--navigate']
     ref = run_plain(args + ['--paging', 'never'], data, env=env)
     if crashmod.classify(ref) is not None or ref.rc != 0:
         return [inconclusive('reference run failed: rc %s' % ref.rc)]
@@ -315,7 +326,7 @@ def run_pager(rng):
     env2 = dict(env)
     env2['VERIF_PAGER_LOG'] = log
     r = run_plain(args + ['--paging', paging], data, env=env2)
-    sets = {'sub': ['pager'], 'sources': ['+'.join(sorted(src)) or 'none'], 'paging': [paging]}
+    sets = {'sub': ['pager'], 'sources': ['+'.join(sorted(src)) or 'none'], 'paging': [paging], 'history_file': ['unwritable' if nohist else 'default']}
     counters = {'pager_runs': 1}
     try:
         c = crashmod.classify(r)
